@@ -118,13 +118,32 @@ class Spaces(object):
 
 
 # ------------------------------------------------------------------ building real operators
-def build(e, sp, subst=None):
+class SwapOp(odl.Operator):
+    """User-defined linear operator (x0, x1) -> (x1, x0) per pair of entries, implemented IN PLACE ONLY and, like
+    many real operators (finite differences), not alias-safe: it writes out while still reading x."""
+
+    def __init__(self, space):
+        super(SwapOp, self).__init__(space, space, linear=True)
+
+    def _call(self, x, out):
+        xa, oa = x.asarray(), out.asarray()
+        oa[0::2] = xa[1::2]
+        oa[1::2] = xa[0::2]
+
+    @property
+    def adjoint(self):
+        return self
+
+
+def build(e, sp, subst=None, matmul=False):
     """Abstract program -> real ODL operator, through the PUBLIC constructors and Python overloads.
     subst: optional {leaf kind: factory(sp) -> operator} replacing leaves (C10 wraps proximals this way)."""
     t = e['t']
     V = sp.V
     if subst and t in subst:
         return subst[t](sp)
+    if t == 'swap':
+        return SwapOp(V)
     if t == 'id':
         return odl.IdentityOperator(V)
     if t == 'scale':
@@ -149,27 +168,28 @@ def build(e, sp, subst=None):
         return odl.solvers.L1Norm(V)
     if t == 'smul':
         return odl.MultiplyOperator(sp.vec(e['v']), domain=sp.S)
-    A = build(e['l'], sp, subst)
+    A = build(e['l'], sp, subst, matmul)
     if t == 'sum':
-        return A + build(e['r'], sp, subst)
+        return A + build(e['r'], sp, subst, matmul)
     if t == 'sub':
-        return A - build(e['r'], sp, subst)
+        return A - build(e['r'], sp, subst, matmul)
     if t == 'comp':
-        return A * build(e['r'], sp, subst)
+        B = build(e['r'], sp, subst, matmul)
+        return (A @ B) if matmul else (A * B)
     if t == 'neg':
         return -A
     if t == 'lscal':
-        return sp.scalar(e['a']) * A
+        return (sp.scalar(e['a']) @ A) if matmul else (sp.scalar(e['a']) * A)
     if t == 'rscal':
-        return A * sp.scalar(e['a'])
+        return (A @ sp.scalar(e['a'])) if matmul else (A * sp.scalar(e['a']))
     if t == 'rdiv':
         return A / sp.scalar(e['a'])
     if t == 'addscal':
         return A + sp.scalar(e['a'])
     if t in ('lvec', 'flvm'):
-        return sp.vec(e['v']) * A
+        return (sp.vec(e['v']) @ A) if matmul else (sp.vec(e['v']) * A)
     if t == 'rvec':
-        return A * sp.vec(e['v'])
+        return (A @ sp.vec(e['v'])) if matmul else (A * sp.vec(e['v']))
     if t == 'addvec':
         return A + sp.vec(e['v'])
     if t == 'raddvec':
